@@ -44,7 +44,7 @@ type c09fSpec struct {
 }
 
 type c09fOp struct {
-	Op     string `json:"op"` // init | inherit | handle
+	Op     string `json:"op"` // init | inherit | handle | close (gen -2 = the generation the latest Inherit inherited from)
 	Spec   int    `json:"spec"`
 	Gen    int    `json:"gen"`
 	Dt     int64  `json:"dt"`
@@ -132,6 +132,7 @@ func c09fRun(in c09fIn) (obs c09fObs) {
 	defer librl.VerifSetNow(nil)
 	ids := map[*librl.RateLimiter]int{}
 	var gens []*RateLimiter
+	lastFrom := -1
 	refsOf := func(f *RateLimiter) []int {
 		out := []int{}
 		for _, u := range f.spec.URLs {
@@ -187,11 +188,30 @@ func c09fRun(in c09fIn) (obs c09fObs) {
 					continue
 				}
 				gens = append(gens, f)
+				lastFrom = g
 				obs.Steps = append(obs.Steps, c09fStep{Refs: refsOf(f), Gen: g})
 				continue
 			}
 			gens = append(gens, f)
 			obs.Steps = append(obs.Steps, c09fStep{Refs: refsOf(f)})
+		case "close":
+			// what Pipeline.Inherit does right after filter.Inherit(prev): prev.Close()
+			g := op.Gen
+			if g == -2 {
+				g = lastFrom
+			}
+			st := c09fStep{Gen: g}
+			if g >= 0 && g < len(gens) {
+				func() {
+					defer func() {
+						if r := recover(); r != nil {
+							st.Code = 2
+						}
+					}()
+					gens[g].Close()
+				}()
+			}
+			obs.Steps = append(obs.Steps, st)
 		case "handle":
 			g := op.Gen
 			if g == -1 {
@@ -382,6 +402,9 @@ func TestVerifC09Filter(t *testing.T) {
 			}
 			if r.Chance(1, 8) && len(in.Specs) > 1 {
 				in.Ops = append(in.Ops, c09fOp{Op: "inherit", Spec: r.Intn(len(in.Specs)), Gen: -1, Dt: dt})
+				if r.Chance(3, 4) {
+					in.Ops = append(in.Ops, c09fOp{Op: "close", Gen: -2})
+				}
 				continue
 			}
 			in.Ops = append(in.Ops, c09fOp{Op: "handle", Gen: -1, Dt: dt,
